@@ -27,7 +27,7 @@ def run(rep, db, tier, seed):
     try:
         from props import replica_seq
         replica_seq.run(rep, db, tier, ('C05', 'C03', 'C02'))
-        rep.bounds['sequences'] = 'restart -> accepted step A -> step B; quick: 4 (A, B) pairs from a plain start state, second input well signed; thorough: 14 pairs, all start-state shapes, arbitrary second input'
+        rep.bounds['sequences'] = 'restart -> accepted step A -> step B, second input well signed by a validator; quick: 4 (A, B) pairs from a start state in phase Prepare holding a commit certificate; thorough: 14 pairs, phase Prepare / Timeout, with / without a high vote'
     except Exception as u:
         rep.add(F.Obligation('two-step handler sequences', 'inconclusive', f'{type(u).__name__}: {u}'[:600]))
     rep.extra['explanation'] = 'one-step certificate-monotonicity, justification and self-justification obligations on the real handler MIR'
